@@ -215,7 +215,41 @@ func ApplyV5(doc, patch string, o V5Opts, indent string) ApplyResult {
 	if res.Panic == nil && dec != nil && core.Hash64(doc, patch)%3 == 0 {
 		res.Panic = entryPointsAgree(dec, doc, indent, o, res.Out, res.Err)
 	}
+	if res.Panic == nil {
+		res.Panic = retainResult("v5 ApplyIndentWithOptions", res.Out)
+	}
 	return res
+}
+
+// Results that callers still hold.  The bytes a call returned belong to the caller: the last few results of each
+// entry point are kept (the slice the library returned and a private copy of its contents) and looked at again
+// after every later call.  A result that has changed - its storage reused for a later call's output, a pooled
+// buffer handed out twice - is reported through the same channel as a panic of the later call.
+type retained struct {
+	what string
+	live []byte
+	copy string
+}
+
+var retainRing [12]retained
+var retainNext int
+
+func retainResult(what string, out []byte) *mon.Panic {
+	for i := range retainRing {
+		r := &retainRing[i]
+		if r.live != nil && string(r.live) != r.copy {
+			pn := &mon.Panic{Deviation: true, Class: "result-of-an-earlier-call-changed-by-a-later-call", Site: r.what,
+				Value: fmt.Sprintf("a result returned earlier by %s read %s when it was returned and reads %s after a later call (%s)", r.what, clip(r.copy, 300), clip(string(r.live), 300), what),
+				Entry: what, Stack: "(no stack: a retained result was compared with its contents at return time)"}
+			r.live = nil
+			return pn
+		}
+	}
+	if len(out) > 0 {
+		retainRing[retainNext%len(retainRing)] = retained{what: what, live: out, copy: string(out)}
+		retainNext++
+	}
+	return nil
 }
 
 // entryPointsAgree: Apply, ApplyIndent and ApplyWithOptions are documented as
